@@ -4,11 +4,12 @@ import json, os, glob
 V = os.path.dirname(os.path.dirname(os.path.abspath(__file__)))
 props = [json.loads(l) for l in open(os.path.join(V, "properties.jsonl"))]
 ids = [p["id"] for p in props]
+ready = set(open(os.path.join(V, "harness", "READY")).read().split()) if os.path.exists(os.path.join(V, "harness", "READY")) else set()
 checks, na = [], []
 for pid in ids:
     mp = os.path.join(V, "harness", "meta", pid + ".json")
     have = os.path.exists(mp) and os.path.exists(os.path.join(V, "harness", pid.lower() + ".py")) \
-        and os.path.exists(os.path.join(V, "coq", "Props", pid + ".v"))
+        and os.path.exists(os.path.join(V, "coq", "Props", pid + ".v")) and pid in ready
     if not have:
         reason = "no check built yet for this property (design in DESIGN.md section 6); not claimed"
         if os.path.exists(mp):
